@@ -1,3 +1,180 @@
-(* C07 — placeholder while the proofs are being written *)
+(* C07 — Each layer is served as a correct overlayfs lower directory of the OCI layer.
+   Statements only; every proof is [exact <lemma of Proofs/Node.v or Proofs/Overlay.v>].
+
+   Vocabulary (Model/Node.v): a node of a layer is described by its metadata view [ch : children] (name -> entry, as
+   metadata.Reader reports it), its own entry [self] and the configuration [c] (is it the layer root, baseInode, opaque mode).
+   [exec c self ch os] is the node state after an arbitrary history [os] of Readdir / Lookup (with or without the go-fuse
+   bridge keeping the child) / Forget / Getattr / Getxattr / Listxattr / state-dir walks. [lookup_spec] and [readdir_spec] are the
+   answers of a fresh node. [valid_name] = the names a kernel can send (non-empty, not "." / ".."). *)
 From Coq Require Import List ZArith Bool String.
-From SV Require Import Model.Node.
+From SV Require Import Model.Node Proofs.Node.
+Import ListNotations.
+Local Open Scope Z_scope.
+
+(* "every order of Lookup and Readdir calls (lookup before or after the listing is memoised)":
+   after ANY history, Lookup of any valid name answers exactly what a fresh node answers, and Readdir lists exactly what a
+   fresh node lists. Neither the memoised listing (entsCached, also set by the Lookup miss path) nor the children kept by
+   go-fuse ever change an answer; in particular inode numbers and attributes are stable. *)
+Theorem C07_lookup_history_irrelevant :
+  forall c self ch os n, valid_name n ->
+    snd (lookup c ch (exec c self ch os) n) = lookup_spec c ch n.
+Proof. intros c self ch os n Hv. exact (lookup_answer c ch _ n (reach_inv c self ch os) Hv). Qed.
+Print Assumptions C07_lookup_history_irrelevant.
+
+Theorem C07_readdir_history_irrelevant :
+  forall c self ch os, snd (readdir c ch (exec c self ch os)) = readdir_spec c ch.
+Proof. intros c self ch os. exact (readdir_answer c ch _ (reach_inv c self ch os)). Qed.
+Print Assumptions C07_readdir_history_irrelevant.
+
+(* The outputs compared with the implementation op by op are produced from the states the two theorems above speak about. *)
+Theorem C07_run_is_exec :
+  forall c self ch os, fst (run c self ch init os) = exec c self ch os.
+Proof. intros c self ch os. exact (run_exec_from c self ch os init). Qed.
+Print Assumptions C07_run_is_exec.
+
+(* Listing and lookup agree: a valid name other than the deliberately hidden state directory is listed iff looking it up
+   succeeds (whenever the listing itself succeeds, i.e. no metadata id exceeds the 32-bit inode space). *)
+Theorem C07_list_iff_lookup :
+  forall c ch l n, valid_name n -> ~ (c_root c = true /\ n = state_dir_name) -> readdir_spec c ch = Some l ->
+    (In n (map d_name l) <-> found (lookup_spec c ch n)).
+Proof. exact list_iff_lookup. Qed.
+Print Assumptions C07_list_iff_lookup.
+
+(* Marker files (every name beginning with .wh., which includes the opaque marker) and, in the layer root, the two prefetch
+   landmarks are never served: not by Lookup in any node state whatsoever, not by the listing. Landmarks below the root are
+   ordinary files (they are not in the hypothesis). The state directory is not listed unless the layer carries such an entry. *)
+Theorem C07_hidden_never_served :
+  forall c ch n, has_wh n = true \/ (c_root c = true /\ is_landmark n = true) ->
+    (forall s, lookup c ch s n = (s, LEnoent))
+    /\ (forall l, readdir_spec c ch = Some l -> ~ In n (map d_name l)).
+Proof. intros c ch n H. split; [intros s; exact (hidden_lookup c ch s n H)|intros l Hl; exact (hidden_not_listed c ch l n Hl H)]. Qed.
+Print Assumptions C07_hidden_never_served.
+
+Theorem C07_state_dir_hidden :
+  forall c ch l, readdir_spec c ch = Some l -> c_root c = true -> find_child ch state_dir_name = None ->
+    ~ In state_dir_name (map d_name l) /\ lookup_spec c ch state_dir_name = LState (state_attr c).
+Proof.
+  intros c ch l H R F. split; [exact (state_dir_not_listed c ch l H R F)|].
+  rewrite lookup_spec_eq, R. reflexivity.
+Qed.
+Print Assumptions C07_state_dir_hidden.
+
+(* Whiteout shape: a marker .wh.X (X a servable name) with no real X beside it is served, by Lookup and in the listing, as a
+   character device 0/0 owned by root, empty, one link, under the inode of the marker; with a real X beside it the real entry
+   wins in both. *)
+Theorem C07_whiteout_shape :
+  forall c ch l x e,
+    readdir_spec c ch = Some l -> unlistable_target c x = false -> find_child ch (wh_prefix ++ x) = Some e ->
+    match find_child ch x with
+    | None => exists i, ino_of (c_base c) (e_id e) = Some i /\ lookup_spec c ch x = LWh e (wh_attr i) /\ In (x, S_IFCHR, i) l
+              /\ f_mode (wh_attr i) = S_IFCHR /\ f_rdev (wh_attr i) = 0 /\ f_uid (wh_attr i) = 0 /\ f_gid (wh_attr i) = 0
+              /\ f_size (wh_attr i) = 0 /\ f_nlink (wh_attr i) = 1 /\ f_ino (wh_attr i) = i
+    | Some r => exists i, ino_of (c_base c) (e_id r) = Some i
+                /\ lookup_spec c ch x = LNode r (entry_to_attr i (e_attr r)) /\ In (x, sysmode (a_mode (e_attr r)), i) l
+    end.
+Proof.
+  intros c ch l x e H U F. pose proof (whiteout_shape c ch l x e H U F) as W.
+  destruct (find_child ch x); [exact W|]. destruct W as [i [A [B C]]]. exists i. repeat split; assumption.
+Qed.
+Print Assumptions C07_whiteout_shape.
+
+(* ... and the listing carries exactly that one entry under the name (children are a map: names are unique). *)
+Theorem C07_whiteout_listed_once :
+  forall c ch l x e d,
+    NoDup (map fst ch) -> readdir_spec c ch = Some l -> unlistable_target c x = false ->
+    find_child ch (wh_prefix ++ x) = Some e -> In d l -> d_name d = x ->
+    match find_child ch x with
+    | None => exists i, ino_of (c_base c) (e_id e) = Some i /\ d = (x, S_IFCHR, i)
+    | Some r => exists i, ino_of (c_base c) (e_id r) = Some i /\ d = (x, sysmode (a_mode (e_attr r)), i)
+    end.
+Proof. exact whiteout_listed_once. Qed.
+Print Assumptions C07_whiteout_listed_once.
+
+(* Opaque xattr, for the three modes: an xattr name configured for the mode reads "y" iff the opaque marker is a child
+   (the entry's own xattrs aside); names not configured for the mode are answered from the entry's own xattrs only;
+   Listxattr = configured names (iff marker) followed by the entry's own. *)
+Theorem C07_opaque_xattr :
+  forall c self ch a,
+    (In a (opaque_xattrs (c_mode c)) -> assoc (a_xattrs (e_attr self)) a = None ->
+       (xattr_value c self ch a = Some opaque_value <-> exists e, find_child ch opq_marker = Some e)
+       /\ (find_child ch opq_marker = None -> xattr_value c self ch a = None))
+    /\ (~ In a (opaque_xattrs (c_mode c)) -> xattr_value c self ch a = assoc (a_xattrs (e_attr self)) a)
+    /\ xattr_names c self ch = (if is_opaque ch then opaque_xattrs (c_mode c) else []) ++ map fst (a_xattrs (e_attr self))
+    /\ opaque_xattrs OpqTrusted = ["trusted.overlay.opaque"%string]
+    /\ opaque_xattrs OpqUser = ["user.overlay.opaque"%string]
+    /\ opaque_xattrs OpqAll = ["trusted.overlay.opaque"%string; "user.overlay.opaque"%string].
+Proof.
+  intros c self ch a. split; [intros H1 H2; exact (opaque_xattr_iff c self ch a H1 H2)|].
+  split; [intros H; exact (other_xattr c self ch a H)|]. repeat split; reflexivity.
+Qed.
+Print Assumptions C07_opaque_xattr.
+
+(* Inode numbers: injective in (baseInode, id) — unique within a layer and across layers with different bases —, never one
+   of the two reserved state inodes of any layer nor 0, and they encode base and id. *)
+Theorem C07_inodes_unique :
+  forall base base' id id' i i',
+    0 <= id -> 0 <= id' -> ino_of base id = Some i -> ino_of base' id' = Some i' ->
+    (i = i' <-> (base = base' /\ id = id'))
+    /\ i <> ino_state base' /\ i <> ino_statfile base' /\ i <> 0
+    /\ i / 2^32 = base /\ i mod 2^32 = 3 + id.
+Proof.
+  intros base base' id id' i i' H1 H2 E1 E2. split.
+  - split; [intros <-; exact (ino_injective base base' id id' i H1 H2 E1 E2)|intros [<- <-]; congruence].
+  - destruct (ino_not_reserved base base' id i H1 E1) as [A [B C]]. destruct (ino_range base id i H1 E1) as [D E].
+    repeat split; assumption.
+Qed.
+Print Assumptions C07_inodes_unique.
+
+(* Stable and consistent: the inode (and file type) a listing shows for a name is the one Lookup reports for it — after any
+   history, by C07_lookup_history_irrelevant. *)
+Theorem C07_inodes_stable :
+  forall c self ch os l d,
+    NoDup (map fst ch) -> readdir_spec c ch = Some l -> In d l -> valid_name (d_name d) ->
+    ~ (c_root c = true /\ d_name d = state_dir_name) ->
+    exists e a, (snd (lookup c ch (exec c self ch os) (d_name d)) = LNode e a \/ snd (lookup c ch (exec c self ch os) (d_name d)) = LWh e a)
+      /\ f_ino a = d_ino d /\ Z.land (f_mode a) S_IFMT = Z.land (d_mode d) S_IFMT /\ ino_of (c_base c) (e_id e) = Some (d_ino d).
+Proof.
+  intros c self ch os l d ND H Hd Hv Hs.
+  rewrite (lookup_answer c ch _ (d_name d) (reach_inv c self ch os) Hv).
+  exact (listing_ino_is_lookup_ino c ch l d ND H Hd Hv Hs).
+Qed.
+Print Assumptions C07_inodes_stable.
+
+(* The listing is ordered by name (the "deterministic order" the code sorts for). *)
+Theorem C07_listing_sorted :
+  forall c ch l, readdir_spec c ch = Some l -> sorted_by_name l.
+Proof.
+  intros c ch l H. unfold readdir_spec in H.
+  destruct (traverse (normal_dirent c) (normals c ch)); [|discriminate].
+  destruct (traverse (wh_dirent c) (shown_whiteouts c ch)); [|discriminate].
+  inversion H. exact (sort_ents_sorted _).
+Qed.
+Print Assumptions C07_listing_sorted.
+
+(* ---- non-vacuity ---- *)
+Definition ex_attr (mode : Z) : attr := mkAttr 0 mode 0 0 0 0 1 0 [].
+Definition ex_children : children :=
+  [("f"%string, mkEnt 2 (ex_attr 420)); (".wh.f"%string, mkEnt 3 (ex_attr 420)); (".wh.g"%string, mkEnt 4 (ex_attr 420));
+   (".wh..wh..opq"%string, mkEnt 5 (ex_attr 420)); (".wh..wh.h"%string, mkEnt 6 (ex_attr 420));
+   (".prefetch.landmark"%string, mkEnt 7 (ex_attr 420)); ("d"%string, mkEnt 8 (ex_attr (2^31 + 493)))].
+Definition ex_cfg := mkCfg true 7 OpqUser.
+
+(* a root directory with a shadowed whiteout, a live one, the opaque marker, a nested .wh. name and a landmark:
+   the listing is "." ".." "d" "f" "g", g is a 0/0 char device, and the answers survive a history that memoises through a miss,
+   keeps g in the go-fuse tree and looks it up again. *)
+Example C07_nonvacuous :
+  let hist := [OLookup "zz" false; OLookup "g" true; OReaddir; OLookup "g" false; OForget "g"] in
+  option_map (map d_name) (readdir_spec ex_cfg ex_children) = Some ["."; ".."; "d"; "f"; "g"]%string
+  /\ lookup_spec ex_cfg ex_children "g" = LWh (mkEnt 4 (ex_attr 420)) (wh_attr (7 * 2^32 + 7))
+  /\ snd (lookup ex_cfg ex_children (exec ex_cfg (mkEnt 1 (ex_attr (2^31 + 493))) ex_children hist) "g")
+     = lookup_spec ex_cfg ex_children "g"
+  /\ memo (exec ex_cfg (mkEnt 1 (ex_attr (2^31 + 493))) ex_children hist) <> None
+  /\ lookup_spec ex_cfg ex_children ".wh.h" = LEnoent
+  /\ lookup_spec ex_cfg ex_children ".prefetch.landmark" = LEnoent
+  /\ xattr_value ex_cfg (mkEnt 1 (ex_attr (2^31 + 493))) ex_children "user.overlay.opaque" = Some "y"%string
+  /\ xattr_value ex_cfg (mkEnt 1 (ex_attr (2^31 + 493))) ex_children "trusted.overlay.opaque" = None
+  /\ NoDup (map fst ex_children) /\ unlistable_target ex_cfg "g" = false /\ valid_name "g".
+Proof.
+  vm_compute. repeat split; try discriminate.
+  repeat constructor; simpl; intuition discriminate.
+Qed.
